@@ -208,27 +208,27 @@ class _ProbeMarketMixin:
             REC.add("setRunning", getattr(self, "market_id", None), v, REC.depth)
         self.__dict__["_is_running_value"] = v
 
-    def _add_order(self, order):
+    def _add_order(self, order, *args, **kwargs):       # extra arguments of a changed signature are passed through
         REC.add("call.add", self.market_id, REC.ref_of(order), order.agent_id,
                 {"price": order.price, "vol": order.volume, "buy": order.is_buy, "ttl": order.ttl,
                  "kind": order.kind.name, "agent": order.agent_id,
                  "stamped": order.placed_at is not None or order.order_id is not None,
                  "mkt_ok": order.market_id == self.market_id})
-        log = super()._add_order(order)
+        log = super()._add_order(order, *args, **kwargs)
         self.__dict__.setdefault("_verif_orders", {})[order.order_id] = order
         REC.add("ret.add", self.market_id, REC.ref_of(order), log)
         return log
 
-    def _cancel_order(self, cancel):
+    def _cancel_order(self, cancel, *args, **kwargs):
         REC.add("call.cancel", self.market_id, REC.ref_of(cancel), cancel.order.agent_id,
                 {"order_id": cancel.order.order_id, "mkt_ok": cancel.order.market_id == self.market_id})
-        log = super()._cancel_order(cancel)
+        log = super()._cancel_order(cancel, *args, **kwargs)
         REC.add("ret.cancel", self.market_id, REC.ref_of(cancel), log)
         return log
 
-    def _execution(self):
+    def _execution(self, *args, **kwargs):
         REC.add("call.exec", self.market_id, self.is_running)
-        logs = super()._execution()
+        logs = super()._execution(*args, **kwargs)
         known = self.__dict__.get("_verif_orders", {})
 
         def fields(o):
